@@ -223,6 +223,18 @@ def run_cases(draw):
     m = draw(st.integers(1, 3))
     boxes = [draw(box(min_width=1e-3)) for _ in range(n)]
     fails = sorted(draw(st.sets(st.integers(0, 40), max_size=4)))
+    if draw(st.booleans()):      # runs of consecutive failing calls: the same design fails two to four times in a row
+        start = draw(st.integers(0, 30))
+        fails = sorted(set(fails) | set(range(start, start + draw(st.integers(2, 4)))))
+    # never five failing calls in a row (that legitimately ends the run with "To many failures")
+    kept, run = [], 0
+    for f_ in fails:
+        run = run + 1 if kept and f_ == kept[-1] + 1 else 1
+        if run <= 4:
+            kept.append(f_)
+        else:
+            run = 0
+    fails = kept
     prec = None
     if draw(st.integers(0, 3)) == 0:
         # a declared precision is a grid *inside* the box: steps coarser than a quarter of the width are a mis-declared
@@ -236,7 +248,10 @@ def run_cases(draw):
             prec = None
     return {"alg": draw(st.sampled_from(["NSGAII", "EpsMOEA", "OMOPSO", "SMPSO", "PSOGA"])), "boxes": boxes, "m": m,
             "N": draw(st.integers(2, 8)), "G": draw(st.integers(1, 4)), "seed": draw(st.integers(0, 2 ** 31)),
-            "fails": fails if draw(st.booleans()) else [], "prec": prec}
+            "fails": fails if draw(st.booleans()) else [], "prec": prec,
+            # a collapsed population: tiny N, many generations, low (valid) mutation probability, optimum in a corner
+            "collapse": draw(st.integers(0, 4)) == 0,
+            "pm": draw(st.sampled_from([0.01, 0.02, 0.05, 0.2]))}
 
 
 def algorithm_class(name):
@@ -264,6 +279,8 @@ def check_run(case):
         if k in fails:
             raise RuntimeError("injected transient failure")
         x = [(float(v) - b[0]) / (b[1] - b[0]) for v, b in zip(ind.vector, boxes)]
+        if case.get("collapse"):
+            return [sum(xi for xi in x) + 0.01 * j * x[0] for j in range(m)]       # optimum in the corner of the box
         return [sum((xi - (j + 1) / (m + 1.0)) ** 2 for xi in x) + 0.1 * j * x[0] for j in range(m)]
     ps = [{"name": "x%d" % i, "bounds": list(b)} for i, b in enumerate(boxes)]
     prec = case.get("prec")
@@ -279,6 +296,10 @@ def check_run(case):
             alg = algorithm_class(case["alg"])(prob)
             alg.options["max_population_size"] = case["N"]
             alg.options["max_population_number"] = case["G"]
+            if case.get("collapse"):
+                alg.options["max_population_size"] = min(case["N"], 3)
+                alg.options["max_population_number"] = 8 + 4 * case["G"]
+                alg.options["prob_mutation"] = case.get("pm", 0.02)
             alg.run()
     finally:
         dispose(prob)
@@ -295,7 +316,8 @@ def check_run(case):
             if isinstance(x, complex) or xf != xf or not (lb - tol <= xf <= ub + tol):
                 raise Violation("runs", "%s:out-of-box" % case["alg"], "%s N=%d G=%d evaluated %r outside %r" % (
                     case["alg"], case["N"], case["G"], v, boxes))
-    return {"nt": case["G"] >= 2, "classes": [case["alg"], "failures" if fails else "clean"]}
+    return {"nt": case["G"] >= 2, "classes": [case["alg"], "failures" if fails else "clean"] + (
+        ["collapsed-population"] if case.get("collapse") else [])}
 
 
 CLAUSES = [
